@@ -171,8 +171,12 @@ def run(R, env):
             rem, n = world_edges(h, ch, want)
             w = h.with_removed(rem).settle()
             R.worlds += 1
-            R.ob("C13.R4", "SpendFunds:%s:tests" % name, n >= 1, "no test of channel_id found", fn=hk)
-            G = Guard("receiver-prefix", subject=lambda s, name=name: s[0] == "call" and is_addr_validator(s) and len(s[2]) == 2 and rcv(s[2][0]) and const_str(s[2][1]) == PREFIX[name])
+            # (the test may be a conversion into a local enum, `SpendDestination::from(channel_id)`: what counts is that
+            # the two worlds differ)
+            R.ob("C13.R4", "SpendFunds:%s:tests" % name, n >= 1 or w.T.reach != h.T.reach, "no test of channel_id found", fn=hk)
+            from engine.analysis import resolve_terms as _rt13
+            in_world = lambda x, w=w: _rt13(prog, x, 2, None, w.assumptions)
+            G = Guard("receiver-prefix", subject=lambda s, name=name: s[0] == "call" and is_addr_validator(s) and len(s[2]) == 2 and rcv(s[2][0]) and (const_str(s[2][1]) == PREFIX[name] or const_str(in_world(s[2][1])) == PREFIX[name]))
             found = []
             ok, off = guarded(w, G, prog, env.depth, found)
             R.ob("C13.R4", "SpendFunds:%s:receiver-validated" % name, ok, "a %s spend succeeds without validate_address(receiver, \"%s\"): %s" % (name, PREFIX[name], off), fn=hk, found=found)
@@ -190,7 +194,8 @@ def run(R, env):
                 R.ob("C13.R4", "SpendFunds:ibc:message-kind", good, "an IBC spend builds %d bank and %d IBC messages" % (len(banks), len(trs)), fn=hk)
                 for t in trs:
                     a, d = t["amount"], t["denom"]
-                    good = t["receiver"] is not None and rcv(t["receiver"]) and t["channel"] is not None and t["channel"][0] == "payload" and ch(t["channel"][1])
+                    chv = in_world(t["channel"]) if t["channel"] is not None else None
+                    good = t["receiver"] is not None and rcv(t["receiver"]) and chv is not None and chv[0] == "payload" and ch(chv[1])
                     good = good and a is not None and a[0] == "field" and a[2] == "amount" and amt_(a[1]) and d is not None and d[0] == "field" and d[2] == "denom" and amt_(d[1])
                     good = good and is_contract_addr(t["sender"] or ("none",))
                     R.ob("C13.R4", "SpendFunds:ibc:message", good, "MsgTransfer{channel: %s, receiver: %s, token: (%s, %s)}" % (fmt(t["channel"] or ("none",))[:50], fmt(t["receiver"] or ("none",))[:50], fmt(d or ("none",))[:40], fmt(a or ("none",))[:40]), loc=t["loc"], fn=hk)
